@@ -353,6 +353,8 @@ func (adapter *Adapter) Teardown(ctx context.Context, resourcePointer resource.P
 			return false, eNotFound{err}
 		case codes.PermissionDenied:
 			return false, eOwnerConflict{eConflict{error: err, resource: resourcePointer}}
+		case codes.InvalidArgument:
+			return false, ePhaseConflict{eConflict{error: err, resource: resourcePointer}}
 		case codes.FailedPrecondition:
 			return false, eConflict{error: err, resource: resourcePointer}
 		default:
@@ -404,6 +406,8 @@ func (adapter *Adapter) TeardownAndDestroy(ctx context.Context, resourcePointer 
 			return eNotFound{err}
 		case codes.PermissionDenied:
 			return eOwnerConflict{eConflict{error: err, resource: resourcePointer}}
+		case codes.InvalidArgument:
+			return ePhaseConflict{eConflict{error: err, resource: resourcePointer}}
 		case codes.FailedPrecondition:
 			return eConflict{error: err, resource: resourcePointer}
 		default:
